@@ -194,16 +194,41 @@ def r3(ctx):
     ctx.check(nv == {"N": 16384, "r": 16, "p": 1}, "C19.R3", hp, "documented scrypt parameters N=16384, r=16, p=1 (fit the H/B/B fields)", witness=nv)
 
 
+CSPRNG = ("os.urandom", "secrets.token_bytes")
+
+
 def r4(ctx):
     hp = ctx.fn(HP)
     du = defuse_of(hp)
-    defs = du.defs.get("salt", [])
-    ok = len(defs) == 1 and isinstance(defs[0][1], ast.Call) and norm(defs[0][1]) == "os.urandom(Auth.SALT_LENGTH)"
-    ctx.check(ok, "C19.R4", hp, "salt := os.urandom(Auth.SALT_LENGTH), bound once, inside hash_password", "two hashes of one password differ", witness=[norm(d[1]) for d in defs if isinstance(d[1], ast.AST)])
+    sc = _scrypt(hp)
+    if not ctx.require("C19.R4", hp, "Scrypt(...) call in hash_password", 1 if sc is not None else 0, 1):
+        return
+    A = ctx.repo.cls("auth:Auth")
+    sl = ctx.folder.class_attr(A, "SALT_LENGTH")
+    arg = sc.args[0] if sc.args else None
+    wit = []
+    ok = isinstance(arg, ast.Name)
+    if ok:
+        node = du.cfg.node_of(sc)
+        defs = du.reaching(arg.id, node.id)
+        ok = bool(defs)
+        for d in defs:
+            v = d[1]
+            wit.append(norm(v) if isinstance(v, ast.AST) else str(d[0]))
+            fresh = isinstance(v, ast.Call) and norm(v.func) in CSPRNG and len(v.args) == 1 and not v.keywords \
+                and ctx.folder.fold(v.args[0], hp.module, cls=hp.cls) == sl and isinstance(sl, int)
+            ok = ok and fresh
+    elif isinstance(arg, ast.Call):
+        wit.append(norm(arg))
+    ctx.check(ok, "C19.R4", hp, "the salt given to scrypt is drawn from the OS random source (%s) with SALT_LENGTH bytes on every path, inside hash_password" % " / ".join(CSPRNG),
+              "two hashes of one password differ", witness=wit)
+    # the salt written into the hash string is that same value
     mod = ctx.repo.mod("auth")
-    glob = [n for n in mod.tree.body if isinstance(n, ast.Assign) and "urandom" in norm(n)]
-    ctx.check(not glob, "C19.R4", hp, "no module-level (shared) salt")
-    ctx.check("salt" not in hp.params, "C19.R4", hp, "the salt is not a parameter")
+    glob = [n for n in mod.tree.body if isinstance(n, ast.Assign) and any(c in norm(n) for c in CSPRNG)]
+    cls_level = [n for n in A.node.body if isinstance(n, (ast.Assign, ast.AnnAssign)) and any(c in norm(n) for c in CSPRNG)]
+    ctx.check(not glob and not cls_level, "C19.R4", hp, "no module-level or class-level (shared) salt")
+    dflt = [norm(d) for d in hp.node.args.defaults + [k for k in hp.node.args.kw_defaults if k is not None] if any(c in norm(d) for c in CSPRNG)]
+    ctx.check(not dflt, "C19.R4", hp, "no random value in a parameter default (evaluated once at import)", witness=dflt)
 
 
 def r5(ctx):
